@@ -28,6 +28,10 @@ theorem entersConnected_eq (c c' : Conn) :
     entersConnected c c' = (decide (c = .notConnected) && decide (c' ≠ .notConnected)) := by
   cases c <;> cases c' <;> rfl
 
+theorem leavesConnected_eq (c c' : Conn) :
+    leavesConnected c c' = (decide (c ≠ .notConnected) && decide (c' = .notConnected)) := by
+  cases c <;> cases c' <;> rfl
+
 theorem entersSelected_eq (c' : Conn) : entersSelected c' = decide (c' = .selected) := by
   cases c' <;> rfl
 
@@ -44,30 +48,36 @@ theorem execStmts_eq (ps : List String) (s : St) (o : List Out) : execStmts ps s
 
 /-! ### the connection events, unfolded -/
 
+@[simp] theorem closeSys_conn (s : St) (sys : Int) : (closeSys s sys).conn = s.conn := by
+  unfold closeSys; simp only; split <;> rfl
+@[simp] theorem closeSys_disc (s : St) (sys : Int) : (closeSys s sys).disconnecting = s.disconnecting := by
+  unfold closeSys; simp only; split <;> rfl
+@[simp] theorem closeSys_active (s : St) (sys : Int) : (closeSys s sys).active = s.active := by
+  unfold closeSys; simp only; split <;> rfl
+
 theorem afterTransition_conn (s : St) (c' : Conn) : (afterTransition s c').1.conn = c' := by
-  unfold afterTransition
-  simp only
-  split <;> simp [sendReq]
+  obtain ⟨c, dc, ac, ctr, opn, lts, lto⟩ := s
+  cases c <;> cases c' <;> cases ac <;> simp [afterTransition, entersConnected_eq, leavesConnected_eq, sendReq, startTimer, cancelTimer]
 
 theorem afterTransition_disc (s : St) (c' : Conn) : (afterTransition s c').1.disconnecting = s.disconnecting := by
-  unfold afterTransition
-  simp only
-  split <;> simp [sendReq]
+  obtain ⟨c, dc, ac, ctr, opn, lts, lto⟩ := s
+  cases c <;> cases c' <;> cases ac <;> simp [afterTransition, entersConnected_eq, leavesConnected_eq, sendReq, startTimer, cancelTimer]
 
 /-- `_on_connected` from NOT CONNECTED -/
 theorem connect_nc (s : St) (h : s.conn = .notConnected) :
     execStmts Gen.HsmsProto.onConnected s [] =
       (if s.active then
-        ({ s with conn := .notSelected, ctr := nextCtr s.ctr, opn := s.opn.filter (fun e => e.1 != nextCtr s.ctr) ++ [(nextCtr s.ctr, .select)] },
+        ({ startTimer s with conn := .notSelected, ctr := nextCtr s.ctr,
+                             opn := s.opn.filter (fun e => e.1 != nextCtr s.ctr) ++ [(nextCtr s.ctr, .select)] },
           [.tx SType.selectReq.code (nextCtr s.ctr) 0 0, .evt "connected"])
-       else ({ s with conn := .notSelected }, [.evt "connected"])) := by
+       else ({ startTimer s with conn := .notSelected }, [.evt "connected"])) := by
   rw [execStmts_eq, onConnected_parsed]
-  simp only [execParsed, h, smCall_connect_nc, afterTransition, entersConnected_eq, entersSelected_eq]
-  cases ha : s.active <;> simp [sendReq, Req.stype]
+  simp only [execParsed, h, smCall_connect_nc, afterTransition, entersConnected_eq, leavesConnected_eq, entersSelected_eq]
+  cases ha : s.active <;> simp [sendReq, Req.stype, startTimer]
 
 /-- the close sequence from a connected state -/
 theorem closeSeq_connected (s : St) (h : s.conn ≠ .notConnected) :
-    closeSeq s = ({ s with conn := .notConnected, disconnecting := false, ctr := nextCtr s.ctr },
+    closeSeq s = ({ s with conn := .notConnected, disconnecting := false, ctr := nextCtr s.ctr, ltStored := false },
       [.tx SType.separateReq.code (nextCtr s.ctr) 0 0, .evt "disconnected"]) := by
   unfold closeSeq
   rw [execStmts_eq, onDisconnecting_parsed]
@@ -76,9 +86,9 @@ theorem closeSeq_connected (s : St) (h : s.conn ≠ .notConnected) :
   cases hc : s.conn with
   | notConnected => exact absurd hc h
   | notSelected =>
-    simp [execParsed, smCall_disconnect_ns, afterTransition, entersConnected_eq, entersSelected_eq]
+    simp [execParsed, smCall_disconnect_ns, afterTransition, entersConnected_eq, leavesConnected_eq, entersSelected_eq, cancelTimer]
   | selected =>
-    simp [execParsed, smCall_disconnect_sel, afterTransition, entersConnected_eq, entersSelected_eq]
+    simp [execParsed, smCall_disconnect_sel, afterTransition, entersConnected_eq, leavesConnected_eq, entersSelected_eq, cancelTimer]
 
 /-! ### the accept race: the reachable set of the two-thread system, computed and checked closed -/
 open Race
